@@ -351,7 +351,7 @@ fn judge_posmaps(c: &Case, imp: &str, model: &str) -> Verdict {
 pub fn run_c03(tier: &str, _seed: u64, model: &Model, _corpus: Vec<Case>) -> Report {
     let mut rep = Report::new("C03");
     rep.rules.push("one case per k: the complete tables (rank vector of size 4^k, index-to-k-mer map, column count, header of the oligo and of the k-mer CGR computer) are compared entry by entry with the model and the spec; every k is non-trivial and distinct".into());
-    let kmax = if tier == "thorough" { 9 } else { 7 };
+    let kmax = if tier == "thorough" { 10 } else { 9 };
     let cases: Vec<Case> = (1..=kmax).map(|k| Case::new("posmaps", &[k], &[], "per-k")).collect();
     // posmaps takes no sequence: request is "posmaps k -"; the driver ignores the dash
     rep.exhaustive_spaces
